@@ -1,12 +1,13 @@
 #!/bin/bash
-# usage: seed_import.sh <Cxx> <A|B>
+# usage: [SEED_ROOT=/tmp/seed2] seed_import.sh <Cxx> <A|B> [stored-variant-name]
 # Confirms a sub-agent's seeded change in a fresh scratch worktree (unchanged tree + demo passes;
 # change + existing suite passes; change + demo fails), runs every quick check against it with the
 # patch applied to /repo (undone straight afterwards) and stores it under /verif/seeded/<Cxx>-<X>/.
 set -u
 export GOFLAGS=-mod=mod GOPROXY=off
 id=$1; x=$2
-src=/tmp/seed/$id/SEED/$x
+src=${SEED_ROOT:-/tmp/seed}/$id/SEED/$x
+name=${3:-$x}
 [ -f $src/patch.diff ] && [ -f $src/demo_test.go ] || { echo "missing deliverables in $src"; exit 3; }
 wt=$(mktemp -d /tmp/seedverify.XXXXXX)
 git -C /repo worktree add -q --detach $wt HEAD || exit 3
@@ -35,10 +36,10 @@ det=$(echo "$out" | grep -o "VIOLATION property=C[0-9]*" | sort -u | sed 's/VIOL
 und=$(echo "$out" | grep -o "CANNOT-DECIDE property=C[0-9]*" | sort -u | sed 's/CANNOT-DECIDE property=//' | tr '\n' ' ')
 echo "   detected by: [${det}]   cannot-decide: [${und}]"
 echo "$out" | grep -E "^[a-z_0-9]+\.go:[0-9]+: R" | cut -c1-260 | head -8
-dst=/verif/seeded/$id-$x
+dst=/verif/seeded/$id-$name
 mkdir -p $dst
 cp $src/patch.diff $dst/patch.diff; cp $src/demo_test.go $dst/demo_test.go; cp $src/NOTES.md $dst/NOTES.md 2>/dev/null
-python3 - "$id" "$x" "$det" "$dst" <<'PY'
+python3 - "$id" "$name" "$det" "$dst" <<'PY'
 import json,sys
 id,x,det,dst=sys.argv[1:5]
 meta={"property":id,"variant":x,"origin":"independent sub-agent given only the property text and a scratch worktree",
